@@ -223,14 +223,26 @@ def check_justified(tokens):
                     else:
                         continue
         for aa, bb in ((0, 1), (3, 0), (2, 's'), (None, 5)):
-            if _run(model, aa, bb) != _run(edited, aa, bb):
+            r1, r2 = _run(model, aa, bb), _run(edited, aa, bb)
+            if 'Exceeded maximum script statements' in str(r1[0][1]) or 'Exceeded maximum script statements' in str(r2[0][1]):
+                continue          # a run cut off by the statement budget is not a completed run: how far it got depends on the statement count
+            if r1 != r2:
                 return {'clause': 'applying the edit a warning suggests changes the behaviour (warning not justified)', 'warning': w, 'source': src,
                         'inputs': [aa, bb], 'original': repr(_run(model, aa, bb))[:200], 'edited': repr(_run(edited, aa, bb))[:200]}
     return None
 
 
+def _just_sequences(maxlen, seed=0):
+    seqs = [s for n in range(1, min(maxlen, 3) + 1) for s in itertools.product(sorted(BODY_TOKENS), repeat=n)]
+    if maxlen >= 4:
+        l4 = list(itertools.product(sorted(BODY_TOKENS), repeat=4))
+        random.Random(seed).shuffle(l4)
+        seqs += l4[:5000]           # seeded sample of the 20 736 four-statement bodies
+    return seqs
+
+
 def native_justified(maxlen, lo, hi):
-    seqs = [s for n in range(1, maxlen + 1) for s in itertools.product(sorted(BODY_TOKENS), repeat=n)][lo:hi]
+    seqs = _just_sequences(maxlen)[lo:hi]
     for seq in seqs:
         bad = check_justified(seq)
         if bad is not None:
@@ -285,8 +297,8 @@ def plan(tier, seed, workdir):
     p.add({'kind': 'native', 'id': 'purity_sources', 'module': 'vf.props.c18', 'fn': 'native_purity_sources', 'kwargs': {}, 'timeout': 600, 'est': 30},
           family='purity on structured programs and shipped .bare files (concrete)')
     jl = 3 if tier == 'quick' else 4
-    nseq = sum(len(BODY_TOKENS) ** n for n in range(1, jl + 1))
-    jchunk = 400 if tier == 'quick' else 2500
+    nseq = len(_just_sequences(jl))
+    jchunk = 400 if tier == 'quick' else 450
     for lo in range(0, nseq, jchunk):
         p.add({'kind': 'native', 'id': f'justified_{lo}', 'module': 'vf.props.c18', 'fn': 'native_justified', 'kwargs': {'maxlen': jl, 'lo': lo, 'hi': lo + jchunk},
                'timeout': 1800, 'est': 60}, family='semantic justification of unused/pointless warnings (concrete)')
@@ -307,7 +319,7 @@ def plan(tier, seed, workdir):
     p.rule = ('CrossHair batches of jump-level models sharing symbolic oracle bits (unknown-label soundness); native sweeps for purity, static '
               'exactness and edit-justification')
     p.bounds = [f'statement lists of length <= {maxlen} over the C08 vocabulary + 48 two-function models', f'oracle draws <= {maxbits}',
-                f'justification: all function bodies of <= {jl} statements over {len(BODY_TOKENS)} statement forms, 4 input pairs']
+                f'justification: all function bodies of <= 3 statements (+ 5000 seeded 4-statement bodies in thorough) over {len(BODY_TOKENS)} statement forms, 4 input pairs; runs cut off by the statement budget are not compared']
     p.stubs = ['host functions cc/tt']
     p.outside = ['warnings about use-before-assignment (not part of the property)', 'execution of shipped .bare files (they need MarkdownUp stubs)']
     p.assumptions = ['CrossHair/z3', 'the interpreter (C08 checks it)']
